@@ -13,8 +13,8 @@ os.makedirs('/tmp/benign-results', exist_ok=True)
 st.worker_caches(8)
 
 def one(p):
-    m = re.search(r'wt([bm])-(C\d+)-out/variant-(\d+)', p)
-    name = '%s-%s%s' % (m.group(2), 'v' if m.group(1) == 'b' else 'm', m.group(3)) if m else os.path.basename(p)[:-6]
+    m = re.search(r'wt([bmc])-(C\d+)-out/variant-(\d+)', p)
+    name = '%s-%s%s' % (m.group(2), {'b': 'v', 'm': 'm', 'c': 'w'}[m.group(1)], m.group(3)) if m else os.path.basename(p)[:-6]
     cache = st.CACHES.get()
     scratch = tempfile.mkdtemp(prefix='verif-bb-')
     work = os.path.join(scratch, 'repo')
